@@ -72,6 +72,28 @@ Fixpoint fresh_along (s : db) (l : list op) : Prop :=
   | o :: r => fresh s /\ fresh_along (fst (stepR s o)) r
   end.
 
+(** the same hypothesis as a boolean, to discharge it by computation for concrete histories *)
+Definition freshb (s : db) : bool :=
+  Nat.ltb (next s) N && forallb (fun x => negb (String.eqb (e_name x) (ids (next s)))) (ents s).
+Fixpoint fresh_alongb (s : db) (l : list op) : bool :=
+  match l with
+  | [] => true
+  | o :: r => freshb s && fresh_alongb (fst (stepR s o)) r
+  end.
+
+Lemma freshb_ok s : freshb s = true -> fresh s.
+Proof.
+  unfold freshb. intros H. apply andb_true_iff in H. destruct H as [H1 H2]. split.
+  - apply Nat.ltb_lt; auto.
+  - intros x Hx E. rewrite forallb_forall in H2. specialize (H2 x Hx). rewrite E, String.eqb_refl in H2. discriminate.
+Qed.
+
+Lemma fresh_alongb_ok s l : fresh_alongb s l = true -> fresh_along s l.
+Proof.
+  revert s. induction l as [|o r IH]; simpl; intros s H; auto.
+  apply andb_true_iff in H. destruct H as [H1 H2]. split; [apply freshb_ok; auto|apply IH; auto].
+Qed.
+
 Theorem inv_run s l : Inv s -> fresh_along s l -> Inv (run ids sanitize unit_ok repaired s l).
 Proof.
   revert s. induction l as [|o r IH]; simpl; intros s H F; auto.
